@@ -195,6 +195,13 @@ theorem checkpoint_cadence (dones : Dones) (id f nc nt : Nat) (x : Ext) (cs : Li
     Cb.events dones (.checkpoint id f nc nt) x cs = everyKthCall id .save f nc (callNums cs) := by
   rw [Lemmas.events_eq_evsOf]; exact Lemmas.checkpoint_evs dones id f cs nc nt x
 
+/-- **How many checkpoints a history contains**: over any sequence of calls, a `CheckpointCallback(save_freq = f)` whose call
+counter stood at `n_calls₀` saves `⌊(n_calls₀ + K)/f⌋ − ⌊n_calls₀/f⌋` times, `K` the number of `on_step` calls it received —
+whatever `learn()` calls, resets and rollouts the history is cut into. -/
+theorem checkpoint_count (dones : Dones) (id f nc nt : Nat) (x : Ext) (cs : List Call) :
+    (Cb.events dones (.checkpoint id f nc nt) x cs).length = (nc + (callNums cs).length) / f - nc / f := by
+  rw [checkpoint_cadence]; exact Lemmas.everyKthCall_length id .save f nc (callNums cs)
+
 /-- **Evaluation cadence**: an `EvalCallback(eval_freq = f)` with any children evaluates exactly at its
 `i`-th `on_step` with `f ∣ i` (`f = 0`: never), whatever its children do or answer. -/
 theorem eval_cadence (dones : Dones) (id f nc nt : Nat) (best : Option Rat) (onBest after : Cb) (x : Ext)
@@ -202,6 +209,14 @@ theorem eval_cadence (dones : Dones) (id f nc nt : Nat) (best : Option Rat) (onB
     eventsOfKind id .evalRun (Cb.events dones (.eval id f nc nt best onBest after) x cs) =
       everyKthCall id .evalRun f nc (callNums cs) := by
   rw [Lemmas.events_eq_evsOf]; exact Lemmas.eval_evs dones id f cs nc nt best onBest after x h1 h2
+
+/-- **How many evaluations a history contains**: `⌊(n_calls₀ + K)/f⌋ − ⌊n_calls₀/f⌋`, whatever the children do or answer. -/
+theorem eval_count (dones : Dones) (id f nc nt : Nat) (best : Option Rat) (onBest after : Cb) (x : Ext)
+    (cs : List Call) (h1 : id ∉ onBest.ids) (h2 : id ∉ after.ids) :
+    (eventsOfKind id .evalRun (Cb.events dones (.eval id f nc nt best onBest after) x cs)).length =
+      (nc + (callNums cs).length) / f - nc / f := by
+  rw [eval_cadence dones id f nc nt best onBest after x cs h1 h2]
+  exact Lemmas.everyKthCall_length id .evalRun f nc (callNums cs)
 
 theorem eval_freq_zero_never (id nc : Nat) (nums : List Nat) : everyKthCall id .evalRun 0 nc nums = [] := by
   simp only [everyKthCall, List.map_eq_nil_iff, List.filter_eq_nil_iff]
